@@ -130,25 +130,35 @@ CLAIMS['C06'] = {
             'normal form of each closed form under swapping the arguments (straight-line symbolic evaluation, branches included); '
             'row independence of the vectorised methods (every reduction over the batch is enumerated; the two/three on the pinned '
             'tree are triaged with a reason, a new or changed one is a violation); check_fit() -> check_theta() dominates every '
-            'read of theta. Boundary conditions, 2-increasingness, Frechet bounds, generator identity and ordering in theta are '
-            'identities between real functions, out of reach of static analysis, not decided.',
+            'read of theta. D4: the closed forms are evaluated in an interval domain with IEEE special values (0, 1, inf, NaN) over a '
+            'partition of (theta, u, v) taken from the quantifier: C(0,v) = C(u,0) = 0, C(1,1) = 1, range [0,1] and NaN-freedom on '
+            'the closed square are proved where the intervals allow, uniform margins / Frechet bounds / the independence value can '
+            'only be refuted (a box whose result interval is disjoint from the admissible set, or NaN for every point), everything '
+            'else is reported undecided. 2-increasingness, generator identity and ordering in theta are not decided.',
     'note': NOTE,
-    'technique': 'AC normal form of expressions (syntactic), reduction enumeration with triage table, guard dominance',
+    'technique': 'AC normal form of expressions (syntactic), reduction enumeration with triage table, guard dominance, '
+                 'interval abstract interpretation with path alternatives',
 }
 CLAIMS['C07'] = {
     'text': 'PARTIAL: log_probability_density is np.log(probability_density(X)) for every family; the closed-form densities are '
             'symmetric in (u,v) (AC normal form); density and conditional CDF evaluate rows independently (triaged reductions). '
-            'h = dC/dv, c = d2C/du dv, ranges, monotonicity and integrals are not decided.',
+            'D4 (interval abstract interpretation over boxes of (theta, u, v)): density >= 0 and never NaN is proved for all three '
+            'families; partial_derivative(0, v) = 0, (1, v) = 1, range [0,1] and the independence values (h = u, c = 1 at Gumbel '
+            'theta = 1 and for Independence) are proved, refuted or undecided per family - this rule exposed the fixed defects F20, '
+            'F21, F22. h = dC/dv and c = d2C/du dv as identities, monotonicity and integrals are not decided.',
     'note': NOTE,
-    'technique': 'AC normal form of expressions, reduction enumeration with triage table',
+    'technique': 'AC normal form of expressions, reduction enumeration with triage table, interval abstract interpretation',
 }
 CLAIMS['C08'] = {
     'text': 'PARTIAL: the generic inverse solves one root problem per (y[i], v[i]) in order with nothing carried between iterations; '
             'the root function is partial_derivative_scalar(u, v_i) - y_i (argument binding checked), returns rank 0 (the rule that '
-            'exposed fixed defect F16) and is bracketed inside [0,1]; Frank/Gumbel/Independence dispatch correctly. That Clayton\'s '
-            'closed form inverts its h-function and monotonicity in y are not decided.',
+            'exposed fixed defect F16) and is bracketed inside [0,1]; Frank/Gumbel/Independence dispatch correctly; D4: at the '
+            'independence parameter percent_point returns its probability argument unchanged, Clayton\'s closed form is evaluated '
+            'on intervals for its range (refutation only where intervals are wide). That Clayton\'s closed form inverts its '
+            'h-function and monotonicity in y are not decided.',
     'note': NOTE,
-    'technique': 'loop idioms (element-wise, loop-carried state), closure binding, rank-kind abstract interpretation',
+    'technique': 'loop idioms (element-wise, loop-carried state), closure binding, rank-kind abstract interpretation, '
+                 'interval abstract interpretation',
 }
 CLAIMS['C09'] = {
     'text': 'PARTIAL: two separate U(0,1) draws of length n_samples, u = percent_point(c, v) with the conditioning draw second, '
